@@ -469,6 +469,31 @@ def r10_5(run):
         elif isinstance(r, ast.Call) and callee_attr(r) == 'set_conf':
             okr = True
         run.ob('R10.5', sv, c, "_save_completed is chained on the SETCONF's Deferred", okr, slot='attach-recv', message='_save_completed attached to %s' % src(r))
+        # ... and nothing earlier on that chain turns Tor's rejection into a success: an errback (addErrback / addBoth / addCallbacks)
+        # attached before _save_completed must hand the failure on (return its argument / re-raise on every path)
+        if isinstance(r, ast.Name):
+            for n in g.nodes_containing(c):
+                for e in calls_in(sv):
+                    if callee_attr(e) not in ('addErrback', 'addBoth', 'addCallbacks') or dotted(receiver(e)) != r.id:
+                        continue
+                    en = g.nodes_containing(e)
+                    if not en or not any(n in g.reachable([s_ for _, s_ in x.succ]) for x in en):
+                        continue
+                    hf = e.args[1] if callee_attr(e) == 'addCallbacks' and len(e.args) > 1 else (e.args[0] if e.args else None)
+                    passes = False
+                    hu = None
+                    if hf is not None and (dotted(hf) or '').startswith('self.'):
+                        hu = run.idx.find_method(tc, dotted(hf)[5:])
+                    elif isinstance(hf, ast.Name):
+                        hu = next((ch for ch in sv.children if ch.name == hf.id), None)
+                    if hu is not None and hu.params:
+                        fp = hu.params[1] if hu.params[0] == 'self' and len(hu.params) > 1 else hu.params[0]
+                        gh = cfg_of(hu)
+                        passes = gh.exit_fall not in gh.live and all(
+                            (isinstance(x.ast.value, ast.Name) and x.ast.value.id == fp) for x in gh.real_nodes() if x.kind == 'stmt' and isinstance(x.ast, ast.Return))
+                    run.ob('R10.5', sv, e, 'an errback in front of _save_completed hands the failure on', passes, slot='errback-before-completed',
+                           message='save() attaches %s before _save_completed and that errback does not return the failure on every path: a SETCONF Tor rejected '
+                                   'continues into _save_completed, the pending changes are dropped and save() reports success' % src(e)[:60])
     direct = [c for c in calls_in(sv) if dotted(c.func) == 'self._save_completed']
     for c in direct:
         for n in g.nodes_containing(c):
@@ -545,6 +570,7 @@ RULES = [
 from ..selftest import M  # noqa: E402
 F = 'txtorcon/torconfig.py'
 MUTANTS = [
+    M('rejection-logged-and-swallowed', F, ["            d.addCallback(self._save_completed)\n            return d", "    def _save_completed(self, *args):"], ["            d.addErrback(self._save_failed)\n            d.addCallback(self._save_completed)\n            return d", "    def _save_failed(self, fail):\n        fail.trap(TorProtocolError)\n        log.msg(str(fail.value))\n\n    def _save_completed(self, *args):"], ['R10.5']),
     M('auto-only-minus-one', F, "        s = int(s)\n        if s < 0:\n            return 'auto'", "        s = int(s)\n        if s == -1:\n            return 'auto'", ['R10.11']),
     M('list-types-by-tuple', F, "    return 'List' in klass.__name__ or klass.__name__ in ['HiddenServices']", "    return klass in (LineList, CommaList, RouterList)", ['R10.10']),
     M('ports-setter-no-mark', 'txtorcon/onion.py', "            functools.partial(self._config.mark_unsaved, 'HiddenServices'),\n        )\n        self._config.mark_unsaved('HiddenServices')\n\n    @property\n    def directory(self):", "            functools.partial(self._config.mark_unsaved, 'HiddenServices'),\n        )\n\n    @property\n    def directory(self):", ['R10.8']),
@@ -564,6 +590,7 @@ MUTANTS = [
     M('clear-before-ack', F, "        if self.protocol:\n            d = self.protocol.set_conf(*args)\n            d.addCallback(self._save_completed)\n            return d", "        if self.protocol:\n            d = self.protocol.set_conf(*args)\n            self.unsaved.clear()\n            d.addCallback(self._save_completed)\n            return d", ['R10.5']),
 ]
 TWINS = [
+    M('rejection-logged-and-passed-on', F, ["            d.addCallback(self._save_completed)\n            return d", "    def _save_completed(self, *args):"], ["            d.addErrback(self._save_failed)\n            d.addCallback(self._save_completed)\n            return d", "    def _save_failed(self, fail):\n        log.msg(str(fail.value))\n        return fail\n\n    def _save_completed(self, *args):"]),
     M('list-types-by-issubclass', F, "    return 'List' in klass.__name__ or klass.__name__ in ['HiddenServices']", "    return issubclass(klass, (LineList, CommaList, RouterList))"),
     M('items-snapshot', F, "        for (key, value) in self.unsaved.items():", "        for (key, value) in list(self.unsaved.items()):"),
     M('orig-before-on_modify-result', F, "        obj = args[0]\n        obj.on_modify()\n        return orig(*args)", "        obj = args[0]\n        obj.on_modify()\n        result = orig(*args)\n        return result"),
